@@ -17,26 +17,34 @@ string path (the one `encode`/`decode` use) and on the integer path. -/
 theorem C16_bits_roundtrip (m : List Nat) (hm : IsBits m) :
     numberToBitStr (bitToNumberStr m) m.length = .ok m ∧
     numberToBitInt (bitToNumberInt m) m.length = m := by
-  sorry
+  obtain ⟨hc, hv⟩ := bitToNumberStr_spec m hm
+  refine ⟨?_, numberToBitInt_bitToNumberInt m hm⟩
+  rw [numberToBitStr_eq _ hc, hv, numberToBitInt_bitToNumberInt m hm]
 
 /-- the string-typed and the integer-typed path give the same value (and the string is canonical). -/
 theorem C16_bits_paths_agree (m : List Nat) (hm : IsBits m) :
-    (bitToNumberStr m).Canonical ∧ (bitToNumberStr m).toNat = bitToNumberInt m := by
-  sorry
+    (bitToNumberStr m).Canonical ∧ (bitToNumberStr m).toNat = bitToNumberInt m :=
+  bitToNumberStr_spec m hm
 
 theorem C16_dna_roundtrip (d : List Char) (hd : IsDna d) :
     (∃ n, dnaToNumberStr d = .ok n ∧ numberToDnaStr n d.length = .ok d) ∧
     (∃ n, dnaToNumberInt d = .ok n ∧ numberToDnaInt n d.length = d) := by
-  sorry
+  obtain ⟨hc, hv⟩ := dnaStr_spec d
+  refine ⟨⟨_, dnaToNumberStr_ok d hd, ?_⟩, ⟨_, dnaToNumberInt_ok d hd, numberToDnaInt_valB d hd⟩⟩
+  rw [numberToDnaStr_eq _ hc, hv, numberToDnaInt_valB d hd]
 
 theorem C16_dna_paths_agree (d : List Char) (hd : IsDna d) :
     ∃ s n, dnaToNumberStr d = .ok s ∧ dnaToNumberInt d = .ok n ∧ s.Canonical ∧ s.toNat = n := by
-  sorry
+  obtain ⟨hc, hv⟩ := dnaStr_spec d
+  exact ⟨_, _, dnaToNumberStr_ok d hd, dnaToNumberInt_ok d hd, hc, hv⟩
 
 /-- a foreign character is a `ValueError` on both paths. -/
 theorem C16_dna_foreign (d : List Char) (hd : ¬ IsDna d) :
     dnaToNumberStr d = .error .valueError ∧ dnaToNumberInt d = .error .valueError := by
-  sorry
+  have h := nucValues_error d hd
+  unfold dnaToNumberStr dnaToNumberInt
+  rw [h]
+  exact ⟨rfl, rfl⟩
 
 /-- every number below `2^L`: the `L`-symbol rendering has length `L`, converts back to the
 number, is the shortest rendering left-padded with `0`, and both paths agree. -/
@@ -45,22 +53,30 @@ theorem C16_number_bits (n L : Nat) (h : n < 2 ^ L) :
     bitToNumberInt (numberToBitInt n L) = n ∧
     (∃ z, numberToBitInt n L = List.replicate z 0 ++ digitsNat 2 n []) ∧
     (∀ s : Dec, s.Canonical → s.toNat = n → numberToBitStr s L = .ok (numberToBitInt n L)) := by
-  sorry
+  obtain ⟨h1, h2, h3, h4⟩ := numberToBitInt_spec n L h
+  refine ⟨h1, h2, h3, h4, ?_⟩
+  intro s hs hv
+  rw [numberToBitStr_eq s hs, hv]
 
 theorem C16_number_dna (n L : Nat) (h : n < 4 ^ L) :
     (numberToDnaInt n L).length = L ∧ IsDna (numberToDnaInt n L) ∧
     dnaToNumberInt (numberToDnaInt n L) = .ok n ∧
     (∃ z, numberToDnaInt n L = List.replicate z 'A' ++ (digitsNat 4 n []).map nucChar) ∧
     (∀ s : Dec, s.Canonical → s.toNat = n → numberToDnaStr s L = .ok (numberToDnaInt n L)) := by
-  sorry
+  obtain ⟨h1, h2, h3, h4⟩ := numberToDnaInt_spec n L h
+  refine ⟨h1, h2, h3, h4, ?_⟩
+  intro s hs hv
+  rw [numberToDnaStr_eq s hs, hv]
 
 /-- the loops over decimal strings never run out of the fuel the model gives them. -/
 theorem C16_fuel (s : Dec) (hs : s.Canonical) (base : Nat) (hb : 2 ≤ base) (hb' : base < 10) :
-    ∃ ds, digitsStrLoop base (digitsFuel s) s [] = .ok ds ∧ ds = digitsNat base s.toNat [] := by
-  sorry
+    ∃ ds, digitsStrLoop base (digitsFuel s) s [] = .ok ds ∧ ds = digitsNat base s.toNat [] :=
+  ⟨_, digitsStrLoop_fuel base hb hb' s hs [], rfl⟩
 
 example : IsBits [0, 0, 1, 0, 1] ∧ IsDna "AACGT".toList := by
-  sorry
+  constructor
+  · unfold IsBits; decide
+  · unfold IsDna; decide
 example : numberToBitStr (bitToNumberStr [0, 0, 1, 0, 1]) 5 = .ok [0, 0, 1, 0, 1] := by decide
 
 end Dsw
